@@ -1,6 +1,7 @@
 import Lean.Data.Json
 import SpoxModel.Model.Func
 import SpoxModel.Model.FuncSem
+import SpoxModel.Model.FuncProg
 /-! Line-protocol handler for C14: (a) function collection + de-duplication on the structure of a real
     build, (b) the max opset policy for a function's imports, (c) direct vs ONNX reading of programs
     with function calls (integers; operator labels 0 add 1 sub 2 mul 3 neg 4 abs). -/
@@ -40,6 +41,37 @@ partial def parseRGraph (j : Json) : Except String RGraph := do
     let subs ← subsJ.toList.mapM parseRGraph
     return RNode.mk req subs)
   return .mk nodes
+
+def pairsOf (j : Json) : Except String (List (String × Nat)) := do
+  let a ← j.getArr?
+  a.toList.mapM (fun p => do
+    let x ← p.getArr?
+    return (← (x[0]!).getStr?, ← (x[1]!).getNat?))
+
+mutual
+partial def parsePNode (j : Json) : Except String PNode := do
+  match j.getObjVal? "op" with
+  | .ok r => return .op (← pairsOf r)
+  | .error _ =>
+    match j.getObjVal? "call" with
+    | .ok c =>
+      let own ← pairsOf (← c.getObjVal? "own")
+      let d ← c.getObjValAs? String "domain"
+      let n ← c.getObjValAs? String "name"
+      let fp ← c.getObjValAs? Nat "fp"
+      let body ← parsePGraph (← c.getObjVal? "body")
+      return .call own (d, n) fp body
+    | .error _ =>
+      let c ← j.getObjVal? "ctrl"
+      let r ← pairsOf (← c.getObjVal? "req")
+      let subsJ ← c.getObjValAs? (Array Json) "subs"
+      let subs ← subsJ.toList.mapM parsePGraph
+      return .ctrl r subs
+partial def parsePGraph (j : Json) : Except String PGraph := do
+  let nodesJ ← j.getObjValAs? (Array Json) "nodes"
+  let nodes ← nodesJ.toList.mapM parsePNode
+  return .mk nodes
+end
 
 def instJson (e : Inst) : Json := Json.arr #[e.1.1, e.1.2, toJson e.2]
 def pairJson (p : String × Nat) : Json := Json.arr #[p.1, toJson p.2]
@@ -98,6 +130,20 @@ def handle (req : Json) : Json :=
       let imp := funcImports (reqG g) (policy model)
       return Json.mkObj [("req", Json.arr ((reqG g).map pairJson).toArray),
                          ("imports", Json.arr (imp.map pairJson).toArray)]
+    | "preq" =>
+      -- the whole program as one requirement tree: what the program's build collects, every reachable
+      -- function body with what ITS build collects and the imports computed from both
+      let g ← parsePGraph (← req.getObjVal? "g")
+      let extra ← pairs req "extra"
+      let model := policy (preqG g ++ extra)
+      let bodies := (bodiesG g).map (fun (eb : Inst × PGraph) =>
+        Json.mkObj [("inst", instJson eb.1),
+                    ("req", Json.arr ((preqG eb.2).map pairJson).toArray),
+                    ("imports", Json.arr ((funcImports (preqG eb.2) model).map pairJson).toArray)])
+      return Json.mkObj [("req", Json.arr ((preqG g).map pairJson).toArray),
+                         ("model", Json.arr (model.map pairJson).toArray),
+                         ("bodies", Json.arr bodies.toArray),
+                         ("used", Json.arr ((usedG (toF g)).map instJson).toArray)]
     | "policy" =>
       let body ← pairs req "body"
       let model ← pairs req "model"
